@@ -232,6 +232,17 @@ pub fn noncanonical_sequences(enc: &'static Encoding, limit: usize) -> Vec<Vec<u
             }
         }
     }
+    if out.is_empty() && !enc.is_single_byte() {
+        // stateful encodings (ISO-2022-JP): an escape sequence followed by a letter, e.g. a
+        // redundant or Roman-set designation that the encoder would never emit
+        for x in 0x20u8..=0x2F {
+            for y in 0x40u8..=0x4F {
+                consider(&[0x1B, x, y, b'a'], &mut out);
+                consider(&[0x1B, x, y, b'a', 0x1B, 0x28, 0x42], &mut out);
+                consider(&[b'a', 0x1B, x, y], &mut out);
+            }
+        }
+    }
     out.truncate(limit);
     out
 }
